@@ -111,6 +111,8 @@ package align
 //@   requires alphabet == AMINOACIDS || alphabet == NUCLEOTIDS || alphabet == UNKNOWN || alphabet == BOTH
 //@   ensures result != nil && fresh(result) && wfa(result) && nrows(result) == 0 && result.length == -1 && fresh(result.seqmap) && fresh(result.seqs)
 //@   ensures result.alphabet == (alphabet == BOTH ? NUCLEOTIDS : alphabet) && result.ignoreidentical == IGNORE_NONE && isalign(result)
+// (C04c, for Split: the new objects are older than everything allocated afterwards)
+//@   ensures allocated(result) && allocated(result.seqmap) && allocated(result.seqs)
 //@   modifies nothing
 
 //@ pure func sameseq(s *seq, t []uint8) bool = len(s.sequence) == len(t) && (forall k :: 0 <= k && k < len(t) ==> s.sequence[k] == t[k])
